@@ -1,4 +1,46 @@
-(* Prop_C04 — statements only; see proofs/Linop*.v *)
+(* Prop_C04 — the normal operator A.N is A^H A. *)
 From Coq Require Import ZArith List Bool.
-From SV Require Import lib.Scalar lib.BigSum model.Linop.
+From SV Require Import lib.Scalar lib.BigSum lib.NdArray model.Linop proofs.LinopTheory proofs.LinopAlgebra.
 Import ListNotations.
+Local Open Scope Z_scope.
+
+(* every class whose _normal_linop is the default (this includes block operators outside their
+   tiling / non-overlap regime, and every combinator): A.N = A.H * A exactly *)
+Theorem C04_default_normal_is_AHA :
+  forall (R : StarRing) arr scal orc A (x : list Z -> R),
+    has_default_normal A = true -> D R arr scal orc (normal A) x = D R arr scal orc (adj A) (D R arr scal orc A x).
+Proof. exact normal_default. Qed.
+Print Assumptions C04_default_normal_is_AHA.
+
+Theorem C04_identity_shortcut :
+  forall (R : StarRing) arr scal orc s (x : list Z -> R),
+    D R arr scal orc (normal (Identity s)) x = D R arr scal orc (adj (Identity s)) (D R arr scal orc (Identity s) x).
+Proof. exact normal_identity. Qed.
+Print Assumptions C04_identity_shortcut.
+
+Theorem C04_reshape_shortcut :
+  forall (R : StarRing) arr scal orc o i (x : list Z -> R) idx,
+    Forall (fun n => 0 < n) o -> Forall (fun n => 0 < n) i -> prodZ o = prodZ i -> inbox i idx ->
+    D R arr scal orc (adj (Reshape o i)) (D R arr scal orc (Reshape o i) x) idx = D R arr scal orc (normal (Reshape o i)) x idx.
+Proof. exact normal_reshape. Qed.
+Print Assumptions C04_reshape_shortcut.
+
+(* the remaining shortcuts return Identity exactly when the model's side condition holds, and are
+   correct whenever the operator is an isometry on the box (unitarity: FFT by C05; permutations;
+   tiling / non-overlapping blocks) *)
+Theorem C04_shortcut_needs_isometry :
+  forall (R : StarRing) arr scal orc A (x : list Z -> R) idx,
+    (match A with Transpose _ _ | FFT _ _ _ | IFFT _ _ _ | Circshift _ _ _ => True
+             | ArrayToBlocks i b s => blocks_tile i b s = true
+             | BlocksToArray _ b s => blocks_no_overlap b s = true
+             | _ => False end) ->
+    D R arr scal orc (adj A) (D R arr scal orc A x) idx = x idx ->
+    D R arr scal orc (normal A) x idx = D R arr scal orc (adj A) (D R arr scal orc A x) idx.
+Proof. exact normal_shortcut. Qed.
+Print Assumptions C04_shortcut_needs_isometry.
+
+(* overlapping blocks do NOT get the identity shortcut (witness of the repaired defect: [6], [3], [1]) *)
+Example C04_overlapping_blocks_use_AHA :
+  has_default_normal (ArrayToBlocks [6] [3] [1]) = true /\ has_default_normal (ArrayToBlocks [6] [3] [3]) = false /\
+  has_default_normal (BlocksToArray [6] [2] [3]) = false /\ has_default_normal (BlocksToArray [6] [3] [2]) = true.
+Proof. vm_compute. auto. Qed.
